@@ -3,6 +3,7 @@
 package c02
 
 import (
+	"io"
 	"strings"
 	"bytes"
 	"encoding/json"
@@ -389,7 +390,9 @@ func (b *built) firstAffected(edited []byte) (int, bool) {
 	return len(b.sent), true
 }
 
-var recvNames = []string{"ReceiveCompleteMessage", "Msg.GetRemainingBytes", "ReceiveFrameWithEnd"}
+var recvNames = []string{"ReceiveCompleteMessage", "Msg.GetRemainingBytes", "ReceiveFrameWithEnd", "Msg.GetBytes x3 (pieces held)"}
+
+const nAPI = 4
 
 // deliver feeds edited to a fresh receiver and pulls messages until an error.
 func (b *built) deliver(edited []byte, api int) (msgs [][]byte, err error) {
@@ -402,6 +405,33 @@ func (b *built) deliver(edited []byte, api int) (msgs [][]byte, err error) {
 			m, err = r.ReceiveCompleteMessage(kit.Bg)
 		case 1:
 			m, err = message.NewMessageFromStream(r).GetRemainingBytes(kit.Bg)
+		case 3:
+			// the typed reader takes the message in three pieces and keeps them as handed out until the message is
+			// over (it knows the lengths an honest sender would produce; whatever an edit makes of them is an error)
+			tm := message.NewMessageFromStream(r)
+			if idx := len(msgs); idx >= len(b.sent) {
+				m, err = tm.GetRemainingBytes(kit.Bg)
+			} else {
+				want := len(b.sent[idx])
+				var pieces [][]byte
+				for got := 0; got < want && err == nil; {
+					k := want/3 + 1
+					if k > want-got {
+						k = want - got
+					}
+					var p []byte
+					if p, err = tm.GetBytes(kit.Bg, k); err == nil {
+						pieces = append(pieces, p)
+						got += k
+					}
+				}
+				if err == nil {
+					if _, e := tm.GetChar(kit.Bg); e != io.EOF {
+						err = fmt.Errorf("message does not end where the sender ended it: %v", e)
+					}
+				}
+				m = bytes.Join(pieces, nil)
+			}
 		case 2:
 			for {
 				var d []byte
@@ -571,7 +601,7 @@ func TestC02Multi(t *testing.T) {
 		for i := 0; i < nf; i++ {
 			fs = append(fs, genFault(t, len(b.frames), len(b.orig)))
 		}
-		api := rapid.IntRange(0, 2).Draw(t, "api")
+		api := rapid.IntRange(0, nAPI-1).Draw(t, "api")
 		c := Case{T: tr, Faults: fs, API: api}
 		v, changed, _ := b.check(fs, api)
 		record(c, changed)
@@ -634,7 +664,7 @@ func TestC02Exhaustive(t *testing.T) {
 			ev.Sample("exhaustive-transcript", tr)
 		}
 		run := func(f Fault) {
-			for api := 0; api < 3; api++ {
+			for api := 0; api < nAPI; api++ {
 				c := Case{T: tr, Faults: []Fault{f}, API: api}
 				v, changed, _ := b.check(c.Faults, api)
 				record(c, changed)
@@ -671,7 +701,7 @@ func TestC02Exhaustive(t *testing.T) {
 			}
 		}
 	}
-	ev.Exhaustive(fmt.Sprintf("all single faults (every bit, every truncation, drop/dup/swap/replay/cut of every frame, forged frames of 10 lengths x 2 end flags at every position) over %d transcripts x 3 receivers", nT))
+	ev.Exhaustive(fmt.Sprintf("all single faults (every bit, every truncation, drop/dup/swap/replay/cut of every frame, forged frames of 10 lengths x 2 end flags at every position) over %d transcripts x 4 receivers", nT))
 }
 
 // TestC02BigFrames: transcripts whose frames sit at the 1 MiB frame limit (where the sender has to split a
@@ -694,7 +724,7 @@ func TestC02BigFrames(t *testing.T) {
 				fs = append(fs, Fault{Kind: "drop", A: i}, Fault{Kind: "dup", A: i}, Fault{Kind: "swap", A: i}, Fault{Kind: "flip", A: offsetOf(b, i), B: 0})
 			}
 			for _, f := range fs {
-				for api := 0; api < 3; api++ {
+				for api := 0; api < nAPI; api++ {
 					c := Case{T: tr, Faults: []Fault{f}, API: api}
 					v, changed, _ := b.check(c.Faults, api)
 					record(c, changed)
@@ -707,7 +737,7 @@ func TestC02BigFrames(t *testing.T) {
 			}
 		}
 	}
-	ev.Exhaustive("4 transcripts with frames at the 1 MiB limit x {stream, typed} x {unedited, end-flag and sample bit flips, truncations, drop/dup/swap of every frame} x 3 receivers")
+	ev.Exhaustive("4 transcripts with frames at the 1 MiB limit x {stream, typed} x {unedited, end-flag and sample bit flips, truncations, drop/dup/swap of every frame} x 4 receivers")
 }
 
 // offsetOf returns the byte offset of frame i's header in the original stream.
